@@ -409,6 +409,8 @@ func runC07(c *kit.Ctx) {
 	c.StartRule("R5", "what is stored into a slot is a real outcome; every queued call gets one", 4)
 	unbufferedHandoff(c)
 	clearedCallSlotsAreSkipped(c)
+	callerBatchIsNotRewritten(c)
+	queueingWatchesTheBatchContextItself(c)
 	noResponseBufferRecycling(c)
 	locateFailuresClearOK(c)
 	dialStartsTheBatcher(c)
